@@ -347,7 +347,7 @@ func histPatches(h *histCtx, doc map[string]interface{}) []interface{} {
 }
 
 // planStep builds the step for plan entry (typ, class) given the current chain and time.
-func planStep(h *histCtx, typ byte, class string, prevTime uint64, modelDoc map[string]interface{}) *opStep {
+func planStep(h *histCtx, typ byte, class string, prevTime uint64, modelDoc map[string]interface{}, extra func(h *histCtx, s *opStep)) *opStep {
 	r := h.r
 	s := &opStep{Class: class, Anchor: randAnchor(r, prevTime), AnchoredType: typeName(typ), Facts: oracle.ValidFacts(typeName(typ))}
 	patches := histPatches(h, modelDoc)
@@ -411,6 +411,9 @@ func planStep(h *histCtx, typ byte, class string, prevTime uint64, modelDoc map[
 				fc.mutate(h, s)
 			}
 		}
+	}
+	if extra != nil {
+		extra(h, s)
 	}
 	s.Built = s.Spec.Build(r)
 	if typ == 'c' && h.ch.Suffix == "" {
@@ -524,8 +527,9 @@ func randOpList(r *fw.Rand) []*operation.AnchoredOperation {
 
 // planEntry is (operation type, class) - class "valid" or a failClass name or "wrong-state".
 type planEntry struct {
-	typ   byte
-	class string
+	typ    byte
+	class  string
+	mutate func(h *histCtx, s *opStep) // optional ad-hoc tampering (C02/C09), applied like a failClass
 }
 
 type histResult struct {
@@ -536,8 +540,12 @@ type histResult struct {
 // runHistory generates and executes one history. mode "C01": compare every
 // state with the model. mode "C12": snapshot inputs around every Apply.
 func runHistory(c *fw.Case, plan []planEntry, keyType string, code uint64, withIETF bool, mode string) {
+	runHistoryProto(c, plan, keyType, code, histProto(withIETF), withIETF, mode)
+}
+
+// runHistoryProto is runHistory with an explicit protocol configuration.
+func runHistoryProto(c *fw.Case, plan []planEntry, keyType string, code uint64, proto protocol.Protocol, withIETF bool, mode string) {
 	r := c.Rng
-	proto := histProto(withIETF)
 	st := sut.NewStack(proto)
 	h := &histCtx{r: r, proto: proto, code: code, keyType: keyType, hasIETF: withIETF}
 	pubs, unpubs := randOpList(r), randOpList(r)
@@ -547,7 +555,7 @@ func runHistory(c *fw.Case, plan []planEntry, keyType string, code uint64, withI
 	outcomes := ""
 	var trace []interface{}
 	for i, pe := range plan {
-		s := planStep(h, pe.typ, pe.class, prevTime, model.Doc)
+		s := planStep(h, pe.typ, pe.class, prevTime, model.Doc, pe.mutate)
 		prevTime = s.Anchor.Time
 		suffix := h.ch.Suffix
 		anch := anchoredOf(s, suffix)
